@@ -875,7 +875,10 @@ def _simplify_function_call(call: HplFunctionCall) -> HplExpression:
     elif fun.name == 'len':
         arg: HplExpression = _simplify(call.arguments[0])
         if isinstance(arg, HplSet):
-            return HplLiteral.number(len(arg.values))
+            # elements that are not literals may turn out to have the same value
+            if all(isinstance(v, HplLiteral) for v in arg.values):
+                distinct = {(isinstance(v.value, bool), v.value) for v in arg.values}
+                return HplLiteral.number(len(distinct))
         elif isinstance(arg, HplRange):
             if is_number_literal(arg.min_value) and is_number_literal(arg.max_value):
                 n = abs(int(arg.max_value.value) - int(arg.min_value.value))
